@@ -629,6 +629,19 @@ func (n *Net) ResetAllOf(addr string) int {
 	return k
 }
 
+// PendingDials returns the number of unresolved dials of a client.
+func (n *Net) PendingDials(client string) int {
+	n.mu.Lock()
+	defer n.mu.Unlock()
+	k := 0
+	for _, pd := range n.dials {
+		if !pd.done && pd.client == client {
+			k++
+		}
+	}
+	return k
+}
+
 // Listening reports whether something listens on addr.
 func (n *Net) Listening(addr string) bool {
 	n.mu.Lock()
